@@ -13,6 +13,11 @@
 // reference after reference: mtext.go renders text nodes that refer to the same variable several
 // times with different filters.
 //
+// The property is about the escape filter of an engine, and a process may hold several: engines.go lets
+// ANOTHER engine of the process register its own e / escape / raw / upper (every way of registering,
+// every order of creation / registration / first use) and requires the untouched engine under test to
+// keep satisfying the oracle on every route.
+//
 // Bounded-exhaustive enumeration of input strings (every code point, every byte string of length
 // <= 2, every string of length <= 5/6 over a 10-symbol alphabet of significant / multi-byte /
 // invalid bytes, every pair and triple of already-escaped forms, long strings, non-string values)
@@ -982,7 +987,11 @@ func main() {
 			"every mixture of two children (256) and of three children (4096); the block's output must be the escaped form of what the same body renders without the block (twin template, same engine), both names identical; " +
 			"macro text with several references (cases 9-macrotext/...): one text node of an API-built macro holding every sequence of 1..3 references over {p, p|e, p|escape, p|length, p|upper, q, q|e} (environment) / {p, p|e, p|escape, q, q|escape} (no environment) " +
 			"that contains an escape, in 3 separator styles (blank, adjacent and without blanks, inside markup): every e / escape reference must be the escaped form of its variable's text and every other reference must render what it renders alone; " +
-			"a case is one block of inputs (<= 553 strings) on a fresh engine; non-trivial = the block contains a significant character or a byte >= 0x80 (apply bodies: the unescaped body does)",
+			"two engines in one process (cases 10-engines/...): ANOTHER engine of the process registers filters of its own - a no-op, a filter that wraps the text in markup, a filter that fails - under every non-empty subset of the names {e, escape, raw, upper} " +
+			"through every exported way of registering a filter (AddFilter, AddExtension with a CustomExtension / with an Extension type of the caller, RegisterExtension, CreateExtension + AddFilterToExtension) and renders with them, in 8 timelines " +
+			"(other engine created before / after the engine under test; registration before the engine under test exists, while it is cold, after it has rendered; the other engine's first use before or after the first render of the engine under test): " +
+			"the never-customised engine under test must satisfy the unchanged oracle on every route under both names at every point of the timeline; plus the engine under test itself registering filters under names no route uses (upper, shout) in the same ways; " +
+			"a case is one block of inputs (<= 553 strings) on a fresh engine; non-trivial = the block contains a significant character or a byte >= 0x80 (apply bodies: the unescaped body does; two engines: the other engine's own e / escape really renders something that is not the escaped form)",
 		Assumptions: []string{
 			"strings longer than 1 MiB + 5 bytes and alphabet strings longer than the bound are not explored",
 			"in the quick tier code points >= U+3000 are swept inside a?& only (not alone) and on one route per escaping mechanism only (print tag = registered filter, ApplyFilter without environment = built-in fallback, macro text with and without environment); the thorough tier sweeps them on all routes",
@@ -992,6 +1001,7 @@ func main() {
 			"apply-block bodies: the expected text is what the body renders without the block on the same engine (the children themselves - macros, include, for, parent() - are trusted); inputs are the short ones of every family (quick: specials, single bytes, the 23 already-escaped forms, alphabet length <= 2, repeats <= 65, code points < U+0100; mixtures of two on the specials, bytes, alphabet strings and non-string values, of three on the specials only; thorough: alphabet length <= 3, pairs of already-escaped forms, repeats <= 4097, code points < U+0800, mixtures of two everywhere, of three also on the bytes and non-string values); macros are not called in the block of an extending template (this twig does not see the template's macros there)",
 			"macro text with several references: a reference without e / escape is compared with the same reference alone in a text node (what upper / length do is not examined); texts with a reference that is an error alone (length of a number) are left out for that value; filter chains and arguments inside macro text are not generated; inputs: quick specials, single bytes, the 23 already-escaped forms, alphabet length <= 2, repeats <= 257, code points < U+0100; thorough alphabet length <= 4, pairs and triples of already-escaped forms, all boundary lengths, code points < U+3000",
 			"boundary lengths around 64 KiB are run in the thorough tier only (quick: up to 4097 repeats, and the 1 MiB strings)",
+			"two engines: one other engine per scenario (not several), one registration per scenario, everything on one goroutine; inputs: quick the 20 specials, thorough also the single bytes, the 23 already-escaped forms, alphabet strings of length <= 2 and the non-string values; an engine under test that registers its OWN e / escape is not generated (the statement describes the escape filter and its alias, not a user-supplied filter of that name); what the other engine renders with its own filters is not judged; worker processes are reused, so behaviour that is fixed by the very first use of a filter name in a process is only seen by the workers whose first case is a two-engine case (the dimension is enumerated right after the first block for that reason)",
 			"held results: only windows of consecutive inputs of the enumeration order are held together (not all pairs); in the quick tier the template forms of the registered filter and the code point blocks >= U+3000 run one of the two name rotations per window, alternating; results longer than 16 KiB are kept for later re-verification on the direct routes only",
 		},
 		QuickDeadline:    150,
@@ -1013,17 +1023,35 @@ func main() {
 			allRotations = t.Thorough()
 			// order: the structured dimensions first, the two code point sweeps (by far the largest and the most
 			// uniform families) last, so that a run cut short by the deadline has seen every dimension
-			plain := func(cp bool) {
+			const (
+				selSpecial    = iota // the block of the specials: the simplest case of all
+				selStructured        // every other family but the code points
+				selCodePoints
+			)
+			plain := func(sel int) {
 				for _, b := range blocks(t.Thorough()) {
 					b := b
-					if (b.family == "codepoint") != cp {
+					is := selStructured
+					if b.family == "special" {
+						is = selSpecial
+					} else if b.family == "codepoint" {
+						is = selCodePoints
+					}
+					if is != sel {
 						continue
 					}
 					tc(b.key, func() *vlib.Outcome { return runBlock(b, main, multis) })
 					tc(b.key+"#"+side[0].name, func() *vlib.Outcome { return runBlock(b, side, nil) })
 				}
 			}
-			plain(false)
+			// the specials on one engine first: a plain defect of the escape is then reported by the plainest case
+			plain(selSpecial)
+			// two engines in one process (engines.go): another engine registers its own e / escape / raw / upper.
+			// This small dimension (1 890 short cases) comes before everything else: something that is decided once
+			// per process by whichever engine gets there first (a memoised lookup, a table built on first use) can
+			// only show while the worker process is still fresh (14 or 15 of the 16 workers still are)
+			enginesCases(t, main)
+			plain(selStructured)
 			for _, nv := range nonStrings() {
 				nv := nv
 				tc("0-nonstring/"+nv.name, func() *vlib.Outcome { return runNonString(nv, main, multis) })
@@ -1081,7 +1109,7 @@ func main() {
 					tc("9-macrotext/"+b.key+"/"+sname, func() *vlib.Outcome { return runMacroTextBlock(t, b, set(i)) })
 				}
 			}
-			plain(true)
+			plain(selCodePoints)
 			shaped(true)
 		},
 		Extra: func(tier string, cov map[string]interface{}) {
@@ -1093,6 +1121,11 @@ func main() {
 			cov["apply_body_child_kinds"] = len(abChildren)
 			cov["apply_body_single_only_kinds"] = len(abExtraChildren)
 			cov["apply_body_placements"] = len(abPlacements)
+			cov["engines_timelines"] = len(egTimelines)
+			cov["engines_registration_mechanisms"] = len(egMechanisms)
+			cov["engines_filter_kinds"] = len(egKinds)
+			cov["engines_name_subsets"] = len(egSubsets(egNames))
+			cov["engines_self_scenarios"] = len(egSelfTimelines) * len(egMechanisms) * len(egKinds) * len(egSubsets(egSelfNames))
 			cov["macro_text_separator_styles"] = len(mtStyles)
 			cov["macro_text_texts_env"] = len(mtSeqs(mtRefsEnv, 3)) * len(mtStyles)
 			cov["macro_text_texts_noenv"] = len(mtSeqs(mtRefsNoEnv, 3)) * len(mtStyles)
